@@ -1252,7 +1252,7 @@ where
     }
 
     fn process_chars_in_table(&self, token: Token) -> ProcessResult<Handle> {
-        declare_tag_set!(table_outer = "table" "tbody" "tfoot" "thead" "tr");
+        declare_tag_set!(table_outer = "table" "tbody" "template" "tfoot" "thead" "tr");
         if self.current_node_in(table_outer) {
             assert!(self.pending_table_text.borrow().is_empty());
             self.orig_mode.set(Some(self.mode.get()));
